@@ -29,6 +29,10 @@ FORMS = [
     ("{y} = {x}--;", ["{y} = {x};", "{x} = {x} - 1;"], True), ("{y} = --{x};", ["{x} = {x} - 1;", "{y} = {x};"], True),
     ("{y} = -{x};", ["{y} = {x} * 2;"], True), ("{y} = +{x};", ["{y} = {x};"], False),
     ("{y} = !{x};", ["{y} = 1;", "{x} = {x};"], False), ("{y} = sizeof({x});", ["{y} = 8;", "{x} = {x};"], False),
+    # ! and sizeof discard their operand whatever it is (the result is a constant)
+    ("{y} = !(int){x};", ["{y} = 1;", "{x} = {x};"], False), ("{y} = !!{x};", ["{y} = 1;", "{x} = {x};"], False),
+    ("{y} = !-{x};", ["{y} = 1;", "{x} = {x};"], False), ("{y} = sizeof((long){x});", ["{y} = 8;", "{x} = {x};"], False),
+    ("{y} = sizeof(!{x});", ["{y} = 8;", "{x} = {x};"], False),
     ("{y} = (int)({x} + {z});", ["{y} = {x} + {z};"], True), ("{y} = (int){x};", ["{y} = {x};"], False),
     ("{y} = (long)({x} * {x});", ["{y} = {x} * {x};"], True),
     ("{y} = (int){x} + {z};", ["{y} = {x} + {z};"], True), ("{y} = {x} - (int){z};", ["{y} = {x} - {z};"], True),
